@@ -154,6 +154,7 @@ func checkC11(c *an.Ctx) {
 	c.Rule("C11.3", "visibility (E5): Run builds every task's env starting from TaskRunner.env, the container the store writes")
 	c.Rule("C11.4", "name (E5): with an empty ExportAs the key is ReplaceAllString([^a-zA-Z0-9_] → _) of ToUpper(Task.Name)+\"_OUTPUT\"; otherwise it is Task.ExportAs unchanged; the value is Task.Log.Stdout")
 	c.Rule("C11.5", ".Output (E3/E5): before each Execute the variable Output is set from a loop-carried value that every back edge refreshes with that iteration's Execute result; Execute returns the buffer suffix starting at the length recorded before the interpreter ran")
+	c.Rule("C11.6", "the capture is only appended to and read whole (who-may-touch, module-wide + E2): apart from the tee, every use of &Task.Log.Stdout is a non-consuming read (String, Len, Bytes, Cap); anything that consumes, truncates, resets or writes it (Read*, Next, WriteTo, Reset, Truncate, Write*, handing it out as an io.Reader or a *bytes.Buffer) is unreachable while Task.Errored is false")
 	c.NotDecided = append(c.NotDecided, "byte-exactness, buffering inside the interpreter", "the exact sanitising alphabet beyond the regexp constant", "accumulation of Log across repeated runs of one task object")
 	p := c.P
 	r := resolveRunner(c, "C11.0")
@@ -309,6 +310,107 @@ func checkC11(c *an.Ctx) {
 
 	// C11.5
 	outputVariable(c, r, "C11.5")
+
+	// C11.6
+	captureBufferUses(c, "C11.6")
+}
+
+// captureBufferUses checks C11.6.
+func captureBufferUses(c *an.Ctx, rule string) {
+	p := c.P
+	readOnly := map[string]bool{"String": true, "Len": true, "Bytes": true, "Cap": true, "Available": true}
+	nUses, nTee := 0, 0
+	for _, fn := range p.Funcs {
+		if !an.InModule(fn) {
+			continue
+		}
+		an.EachInstr(fn, func(in ssa.Instruction) {
+			fa, ok := in.(*ssa.FieldAddr)
+			if !ok || fa.Referrers() == nil {
+				return
+			}
+			ap := an.AccessPath(fa)
+			if len(ap.Fields) < 2 || strings.Join(ap.Fields[len(ap.Fields)-2:], ".") != "Log.Stdout" {
+				return
+			}
+			if pt, ok := fa.Type().(*types.Pointer); !ok || !an.TypeIs(pt.Elem(), "bytes", "Buffer") {
+				return
+			}
+			for _, ref := range *fa.Referrers() {
+				what := ""
+				switch x := ref.(type) {
+				case ssa.CallInstruction:
+					cc := x.Common()
+					if cc.IsInvoke() || len(cc.Args) == 0 || cc.Args[0] != ssa.Value(fa) {
+						what = "is handed to " + an.ShortCallee(cc)
+						break
+					}
+					callee := cc.StaticCallee()
+					if callee == nil || callee.Signature.Recv() == nil || !an.TypeIs(callee.Signature.Recv().Type(), "bytes", "Buffer") {
+						what = "is handed to " + an.ShortCallee(cc)
+						break
+					}
+					if readOnly[callee.Name()] {
+						nUses++
+						continue
+					}
+					what = "has " + callee.Name() + " called on it"
+				case *ssa.MakeInterface:
+					// the tee: an io.Writer that ends in the MultiWriter of TaskOutput.Stdout (C11.1 decides what that is)
+					if inPkgs("pkg/output")(fn) && fn.Name() == "Stdout" {
+						nTee++
+						continue
+					}
+					what = "is converted to " + types.TypeString(x.Type(), func(pk *types.Package) string { return pk.Name() })
+				case *ssa.DebugRef:
+					continue
+				default:
+					what = "is used by " + ref.String()
+				}
+				nUses++
+				// reachable while the task has not failed?
+				use := ref
+				ex := &an.Explorer{P: p, NoReturn: noReturn, MaxVisits: 1}
+				ex.Atom = func(v ssa.Value) (an.AVal, bool) {
+					u, ok := v.(*ssa.UnOp)
+					if !ok || u.Op != token.MUL {
+						return an.AVal{}, false
+					}
+					if f2, ok := u.X.(*ssa.FieldAddr); ok && an.TypeField(f2) == "Task.Errored" {
+						return an.ABool(false), true
+					}
+					return an.AVal{}, false
+				}
+				ex.Effect = func(i2 ssa.Instruction, st *an.State) string {
+					if i2 == use {
+						return "touch"
+					}
+					return ""
+				}
+				reached := false
+				f := fn
+				for f.Parent() != nil {
+					f = f.Parent()
+				}
+				if f != fn {
+					reached = true // inside a closure: not explored
+				}
+				for _, o := range ex.Run(fn, fn.Blocks[0], nil, nil) {
+					if has(o.Effects, "touch") {
+						reached = true
+					}
+				}
+				if ex.Exhausted {
+					c.Und(rule, an.Short(fn)+":"+what, ref.Pos(), "path budget exhausted")
+					continue
+				}
+				c.Check(!reached, rule, an.Short(fn)+": Log.Stdout "+what, ref.Pos(), "only reachable once the task is marked errored", "the captured output "+what+" on a path where the task is not marked errored: the capture of a task that succeeds (or fails with allow_failure) is consumed or altered before it is stored and handed to the dependent stages")
+			}
+		})
+	}
+	if nTee == 0 || nUses == 0 {
+		c.Und(rule, "Task.Log.Stdout:uses", token.NoPos, "uses of the capture buffer not found (tee=%d, others=%d)", nTee, nUses)
+	}
 }
 
 func storeName(c *an.Ctx, r *runnerRoles, rule string) {
@@ -457,8 +559,83 @@ func storeName(c *an.Ctx, r *runnerRoles, rule string) {
 			good = pat == "[^a-zA-Z0-9_]" && repl == "_" && upper
 			why = fmt.Sprintf("pattern %q, replacement %q, input %s", pat, repl, inner)
 		}
+		if ok && an.ShortCallee(&call.Call) == "strings.Map" {
+			// the same substitution written as a per-rune map: the mapping function is evaluated on every rune
+			// its comparisons can tell apart
+			inner := an.FieldProv(call.Call.Args[1])
+			upper := (strings.Contains(inner, "strings.ToUpper(Task.Name)") && strings.Contains(inner, "_OUTPUT")) || isUpperNameOutput(call.Call.Args[1])
+			okMap, whyMap := false, "the mapping function is not a function of the module"
+			for _, fsrc := range an.Sources(call.Call.Args[0]) {
+				if mf, isF := fsrc.(*ssa.Function); isF && mf.Blocks != nil && len(mf.Params) == 1 {
+					okMap, whyMap = runeMapIsSanitiser(c.P, mf)
+				}
+			}
+			good = upper && okMap
+			why = fmt.Sprintf("strings.Map: %s, input %s", whyMap, inner)
+		}
 		c.Check(good, rule, rowKey, envSet.Pos(), "the key is the sanitised upper-cased task name + _OUTPUT", "with ExportAs empty the key is not ReplaceAllString([^a-zA-Z0-9_]→_)(ToUpper(Task.Name)+_OUTPUT): "+why)
 	}
+}
+
+// runeMapIsSanitiser decides whether f: rune → rune keeps [a-zA-Z0-9_] and maps every other rune to '_'. f may use
+// its parameter only in comparisons with constants and as a result; it is then evaluated at every constant it
+// compares with and at both neighbours, which covers every interval its comparisons distinguish.
+func runeMapIsSanitiser(p *an.Prog, f *ssa.Function) (bool, string) {
+	prm := f.Params[0]
+	points := map[int64]bool{0: true, 0x10FFFF: true, 0xFFFD: true, 0x80: true}
+	for r := int64(0); r < 128; r++ {
+		points[r] = true
+	}
+	okShape := true
+	if prm.Referrers() != nil {
+		for _, ref := range *prm.Referrers() {
+			switch x := ref.(type) {
+			case *ssa.BinOp:
+				other := x.Y
+				if other == ssa.Value(prm) {
+					other = x.X
+				}
+				k, isC := an.ConstInt(other)
+				switch x.Op {
+				case token.EQL, token.NEQ, token.LSS, token.LEQ, token.GTR, token.GEQ:
+				default:
+					okShape = false
+				}
+				if !isC {
+					okShape = false
+				}
+				points[k], points[k-1], points[k+1] = true, true, true
+			case *ssa.Return, *ssa.Phi, *ssa.DebugRef:
+			default:
+				okShape = false
+			}
+		}
+	}
+	if !okShape {
+		return false, an.Short(f) + " does more with the rune than compare it with constants"
+	}
+	keep := func(r int64) bool {
+		return r == '_' || (r >= 'a' && r <= 'z') || (r >= 'A' && r <= 'Z') || (r >= '0' && r <= '9')
+	}
+	for r := range points {
+		if r < 0 || r > 0x10FFFF {
+			continue
+		}
+		ex := &an.Explorer{P: p, NoReturn: noReturn}
+		outs := ex.Run(f, f.Blocks[0], nil, map[ssa.Value]an.AVal{prm: an.AInt(r)})
+		if len(outs) != 1 || outs[0].End != "return" || len(outs[0].Ret) != 1 {
+			return false, fmt.Sprintf("%s is not a function of the rune alone (at %#x)", an.Short(f), r)
+		}
+		got, isC := an.ConstIntOf(outs[0].Ret[0])
+		want := int64('_')
+		if keep(r) {
+			want = r
+		}
+		if !isC || got != want {
+			return false, fmt.Sprintf("%s maps %q to %q, expected %q", an.Short(f), rune(r), rune(got), rune(want))
+		}
+	}
+	return true, an.Short(f) + " keeps [a-zA-Z0-9_] and maps every other rune to _"
 }
 
 func isPlainLoad(v ssa.Value) bool {
@@ -820,4 +997,53 @@ func teeElems(v ssa.Value, bind map[*ssa.Parameter]ssa.Value, depth int) (tees [
 		}
 	}
 	return tees, opaque
+}
+
+// isUpperNameOutput: v is strings.ToUpper(<task>.Name) + "_OUTPUT" (concatenation or Sprintf("%s_OUTPUT", …)).
+func isUpperNameOutput(v ssa.Value) bool {
+	isUpperName := func(u ssa.Value) bool {
+		for _, src := range an.Sources(u) {
+			call, ok := src.(*ssa.Call)
+			if !ok || an.ShortCallee(&call.Call) != "strings.ToUpper" {
+				return false
+			}
+			ap := an.AccessPath(call.Call.Args[0])
+			if len(ap.Fields) != 1 || ap.Fields[0] != "Name" || !an.TypeIs(ap.Base.Type(), "pkg/task", "Task") {
+				return false
+			}
+		}
+		return true
+	}
+	srcs := an.Sources(v)
+	if len(srcs) == 0 {
+		return false
+	}
+	for _, src := range srcs {
+		switch x := src.(type) {
+		case *ssa.BinOp:
+			suffix, isS := an.ConstString(x.Y)
+			if x.Op != token.ADD || !isS || suffix != "_OUTPUT" || !isUpperName(x.X) {
+				return false
+			}
+		case *ssa.Call:
+			if an.ShortCallee(&x.Call) != "fmt.Sprintf" {
+				return false
+			}
+			format, isS := an.ConstString(x.Call.Args[0])
+			el := an.VariadicElems(x.Call.Args[1])
+			if !isS || format != "%s_OUTPUT" || len(el) != 1 || el[0] == nil {
+				return false
+			}
+			arg := el[0]
+			if mi, ok := arg.(*ssa.MakeInterface); ok {
+				arg = mi.X
+			}
+			if !isUpperName(arg) {
+				return false
+			}
+		default:
+			return false
+		}
+	}
+	return true
 }
